@@ -4,4 +4,5 @@ pub mod c28;
 pub mod c29;
 pub mod c30;
 pub mod c30_tokio;
+pub mod c31;
 pub mod c32;
